@@ -281,6 +281,22 @@ def flat(obj):
     return out
 
 
+def getter_view(obj):
+    """value and, where the class has them, the derivative getters as multisets (None = absent part)"""
+    def ms(v):
+        if v is None:
+            return None
+        if isinstance(v, tuple) and all(x is None for x in v):
+            return None
+        return sorted(fbits(x) for x in flat(v))
+    out = {"value": fbits(obj.value)}
+    if hasattr(obj, "first_derivative"):
+        out["first"] = ms(obj.first_derivative)
+    if hasattr(obj, "second_derivative"):
+        out["second"] = ms(obj.second_derivative)
+    return out
+
+
 def same_bits(py_floats, ref_hex):
     if len(py_floats) != len(ref_hex):
         return False
@@ -340,6 +356,7 @@ def run_job(nd, job, ref):
         for op in job["ops"]:
             regs.append(py_step(op, regs))
         seen["reprs"] = [repr(r) for r in regs]
+        seen["getters"] = [getter_view(r) for r in regs]
         if drv == "jacobian":
             return [regs[i] for i in job["rets"]]
         return regs[-1]
@@ -374,6 +391,11 @@ def run_job(nd, job, ref):
     for i, (p, r) in enumerate(zip(seen.get("reprs", []), ref["reprs"])):
         if p != r:
             return {"at": i, "what": f"repr of callback register {i}", "python_repr": p, "rust_display": r}
+    if drv in ("gradient", "hessian", "jacobian", "partial_hessian"):
+        for i, (p, r) in enumerate(zip(seen.get("getters", []), ref.get("getters", []))):
+            for k in ("value", "first", "second"):
+                if k in p and k in r and p[k] != r[k]:
+                    return {"at": i, "what": f"getter {k} of callback register {i}", "python": p[k], "rust": r[k]}
     return None
 
 
